@@ -1094,7 +1094,11 @@ impl Vm {
 
     fn end_finally_impl(&mut self) -> Result<(), Error> {
         if self.handling_exception {
-            self.unwind_stack()?;
+            // The exception leaving this finally block replaces any return that was pending when
+            // the block was entered; once it has been delivered the machine state belongs to the
+            // handler.
+            self.active_fiber_mut().take_return_data();
+            return self.unwind_stack();
         }
         let return_data = self.active_fiber_mut().take_return_data();
         if let Some((value, ip)) = return_data {
